@@ -1,6 +1,6 @@
 (* C05/Property.v — property theorems only. *)
 From Coq Require Import ZArith Bool List String.
-From Verif Require Import Base.Str Base.Py Base.Py2 C05.Model C05.Spec C05.Proofs C05.Source C05.Source2 C05.Time C05.TimeProofs.
+From Verif Require Import Base.Str Base.Py Base.Py2 C05.Model C05.Spec C05.Proofs C05.Decor C05.Source C05.Source2 C05.Time C05.TimeProofs.
 From Verif Require C13.Lex.
 From VerifGen Require Import C05Src C05Src2 C05Src2v.
 Import ListNotations.
@@ -282,3 +282,87 @@ Theorem c05_source2_accept_by_parts : forall x,
   (forall s, sess (t x) = Some s -> str_to_time s <> 0) -> accept x = accept_by_parts x.
 Proof. exact accept_is_by_parts. Qed.
 Print Assumptions c05_source2_accept_by_parts.
+
+(* ---- decorated confirmations (strengthening round 6): every SubjectConfirmation has a METHOD (bearer, holder-of-key,
+   sender-vouches, unknown), its data may name an ADDRESS (well-formed or not) and carry a KeyInfo, and the application
+   may name the PEER the message came from.  For all of these, all message shapes, all clock values after 1970+skew:
+   identity only inside the Conditions window, not later than any SessionNotOnOrAfter, inside the bounds of EVERY
+   bearer SubjectConfirmationData (whatever its Address, KeyInfo or neighbours) and with one confirmation that
+   confirms; accepted strictly inside. *)
+Theorem c05_decorated_validity : forall x, 0 < xnow (d_x x) - xskew (d_x x) -> dspec x (daccept x).
+Proof. exact dvalidity_holds. Qed.
+Print Assumptions c05_decorated_validity.
+
+Theorem c05_decorated_spec_reflect : forall x v, dspec_b x v = true <-> dspec x v.
+Proof. exact dspec_b_iff. Qed.
+Print Assumptions c05_decorated_spec_reflect.
+
+(* an Address that is an IPv4/IPv6 text and a KeyInfo have no bearing: without conversation info the verdict is that of
+   the bare message *)
+Theorem c05_decorations_without_bearing : forall x,
+  d_remote x = RNone -> forallb harmless (d_decor x) = true -> daccept x = xaccept (d_x x).
+Proof. exact daccept_harmless. Qed.
+Print Assumptions c05_decorations_without_bearing.
+
+Theorem c05_decorated_widens_model : forall x, daccept (undecorated x) = xaccept x.
+Proof. exact daccept_undecorated. Qed.
+Print Assumptions c05_decorated_widens_model.
+
+(* nothing was loosened: on an undecorated message the decorated property implies the property of the whole message *)
+Theorem c05_decorated_widens_spec : forall x v, dspec (undecorated x) v -> xspec x v.
+Proof. exact dspec_undecorated. Qed.
+Print Assumptions c05_decorated_widens_spec.
+
+(* now outside the bounds (plus skew) of ANY bearer SubjectConfirmationData: no identity — whatever Address / KeyInfo
+   it has, whatever the peer, whatever other confirmations (of any method) stand next to it *)
+Theorem c05_outside_any_bearer_window : forall x w d,
+  In (Some w, d) (dconfs x) -> k_method d = MBearer ->
+  (match snd w with Some b => xnow (d_x x) > fst b + timeslack (xatd (d_x x)) | None => False end
+   \/ match fst w with Some a => fst a > xnow (d_x x) + timeslack (xatd (d_x x)) | None => False end) ->
+  daccept x = Reject.
+Proof. exact outside_bearer_window_rejected. Qed.
+Print Assumptions c05_outside_any_bearer_window.
+
+(* source tie: _bearer_confirmed on data that NAME AN ADDRESS (valid_address external: True for an IPv4/IPv6 text,
+   raises NotValid otherwise): the window decides exactly as without the Address *)
+Theorem c05_source2_bearer_confirmed_address :
+  forall (text_of : stamp -> String.string) (to_secs parse gmtime : pyval -> pyval) (kgm : Z -> Z) (aud : pyval),
+  (forall s, is_empty (text_of s) = false) -> (forall s, to_secs (PStr (text_of s)) = PInt (str_to_time s)) ->
+  (forall s, parse (PStr (text_of s)) = PInt (kgm (str_to_time s))) ->
+  (forall a b, (kgm a >=? kgm b) = (a >=? b)) ->
+  forall (valid_address : pyval -> pyval) (atext : String.string), is_empty atext = false ->
+  forall (now : Z) (r : self_) (snb snooa : option stamp) (irt : pyval),
+  valid_address (PStr atext) = PBool true -> f_asynchop r = false ->
+    src2_bearer_confirmed (PInt now) to_secs parse gmtime valid_address (enc_self text_of aud r)
+      (enc_data_at text_of (PStr atext) snb snooa irt)
+    = enc_result text_of aud (m_bearer_window now (f_slack r) snb snooa, r).
+Proof. exact src2_bearer_confirmed_address_is_model. Qed.
+Print Assumptions c05_source2_bearer_confirmed_address.
+
+Theorem c05_source2_bearer_confirmed_address_async :
+  forall (text_of : stamp -> String.string) (to_secs parse gmtime : pyval -> pyval) (kgm : Z -> Z) (aud : pyval),
+  (forall s, is_empty (text_of s) = false) -> (forall s, to_secs (PStr (text_of s)) = PInt (str_to_time s)) ->
+  (forall s, parse (PStr (text_of s)) = PInt (kgm (str_to_time s))) ->
+  (forall a b, (kgm a >=? kgm b) = (a >=? b)) ->
+  forall (valid_address : pyval -> pyval) (atext : String.string), is_empty atext = false ->
+  forall (now : Z) (r : self_) (snb snooa : option stamp) (irt cf : String.string),
+  valid_address (PStr atext) = PBool true ->
+  f_asynchop r = true -> f_irt r = PStr irt -> f_outstanding r = PObj ((irt, PStr cf) :: nil) ->
+  f_came_from r = PNone -> is_empty irt = false -> String.eqb irt "__class__" = false ->
+    src2_bearer_confirmed (PInt now) to_secs parse gmtime valid_address (enc_self text_of aud r)
+      (enc_data_at text_of (PStr atext) snb snooa (PStr irt))
+    = let o := m_bearer_window now (f_slack r) snb snooa in
+      enc_result text_of aud (o, match o with ORet true => with_came_from r (PStr cf) | _ => r end).
+Proof. exact src2_bearer_confirmed_address_async_is_model. Qed.
+Print Assumptions c05_source2_bearer_confirmed_address_async.
+
+Theorem c05_source2_bearer_confirmed_bad_address :
+  forall (text_of : stamp -> String.string) (to_secs parse gmtime : pyval -> pyval) (aud : pyval),
+  forall (valid_address : pyval -> pyval) (atext : String.string), is_empty atext = false ->
+  forall (now : Z) (r : self_) (snb snooa : option stamp) (irt : pyval),
+  valid_address (PStr atext) = PExc "NotValid" ->
+    src2_bearer_confirmed (PInt now) to_secs parse gmtime valid_address (enc_self text_of aud r)
+      (enc_data_at text_of (PStr atext) snb snooa irt)
+    = enc_result text_of aud (OExc "NotValid", r).
+Proof. exact src2_bearer_confirmed_bad_address_raises. Qed.
+Print Assumptions c05_source2_bearer_confirmed_bad_address.
